@@ -69,7 +69,7 @@ CHECKS = {
                 note="requested counts never exceed the number of possible hyperedges; an add_random_edge draw that already exists may add 1 to its weight / reset its metadata (C01 re-insertion semantics)"),
     "C15": dict(tech="runtime monitoring: postcondition oracles on HyMMSBM closed forms against brute-force sums over all possible hyperedges; trace monitor wrapped around every _w_update/_u_update of fit() (finite, non-negative, symmetric/diagonal, supplied parameters untouched) and public replays n_iter=1..T checked for ascent of the exact Poisson likelihood",
                 ref="DESIGN.md 4/C15",
-                text="held on the explored parameter sets and fit configurations, except four open known findings (N==2 division, MAP-EM under a positive prior, NaN after community underflow, NaN after affinity-entry underflow); exploration",
+                text="held on the explored parameter sets and fit configurations, except five open known findings (N==2 division, MAP-EM under a positive prior, NaN after community underflow, after affinity-entry underflow, after a non-positive update denominator); exploration",
                 note="rtol 1e-9 with an absolute term scaled by the cancelling magnitudes; brute force for N <= 8, enumeration-free closed forms for N up to 1500; differences between tol and 100*tol are inconclusive, not held"),
     "C16": dict(tech="runtime monitoring: postcondition oracle on every hypergraph yielded by HyMMSBMSampler.sample + wrapper on _mcmc_step watching the chain state after every step (diagnostic) + metamorphic pair of equal samplers (same parameters and seed)",
                 ref="DESIGN.md 4/C16",
